@@ -323,7 +323,17 @@ def ku_encoding(cfg, crate, rep, rule="C02.tables"):
             mask |= 0x8000 >> KU_BITS[k.variant.split("::")[-1]]
         E.captured = []
         try:
-            E.call(fn, [ceval.Adt("certificate::CertificateParams", None, {"key_usages": list(ks)}), ceval.OPAQUE])
+            # arguments by parameter type: the parameters (`&self`), or the usage list itself, and the writer
+            args_ = []
+            for p_ in crate.bodies[fn].get("params", []):
+                ty_ = p_.get("ty") or ""
+                if "KeyUsagePurpose" in ty_:
+                    args_.append(list(ks))
+                elif "DERWriter" in ty_:
+                    args_.append(ceval.OPAQUE)
+                else:
+                    args_.append(ceval.Adt("certificate::CertificateParams", None, {"key_usages": list(ks)}))
+            E.call(fn, args_)
             got = E.captured
         except (ceval.Unsupported, ceval.Panic) as e:
             got = "%s: %s" % (type(e).__name__, e)
